@@ -20,7 +20,13 @@ pub fn catch<T>(f: impl FnOnce() -> T) -> Result<T, String> {
 }
 
 pub fn silence_panics() {
-    std::panic::set_hook(Box::new(|_| {}));
+    // library panics are decisions (recorded by `catch`); only the engine's own MACHINERY panics are printed
+    std::panic::set_hook(Box::new(|info| {
+        let msg = info.payload().downcast_ref::<String>().cloned().or_else(|| info.payload().downcast_ref::<&str>().map(|s| s.to_string())).unwrap_or_default();
+        if msg.starts_with("MACHINERY") || std::env::var("VERIF_PANICS").is_ok() {
+            eprintln!("{} ({})", msg, info.location().map(|l| l.to_string()).unwrap_or_default());
+        }
+    }));
 }
 
 /// A verifier decision. `Rej`, `Err`, `Panic` are all "not accepted".
